@@ -36,6 +36,20 @@ CLAIMS.update({
     text="Proved in Lean for every class definition (any number of states, any transition multiset incl. self-loops, parallel edges, internal flags, from_.any(), loose transitions, strict on/off): the model of the metaclass checks accepts a non-abstract definition iff it is well formed (WellFormed written from the statement, reachability as an inductive closure; the worklist BFS is proved sound and complete), and under strict_states rejects exactly when a trap / no-path-to-final state exists, otherwise warns naming exactly those states. Tied to the code by exhaustive differential execution against the real metaclass and an independent Warshall oracle: all definitions with <=3 states/<=3 transitions every run (105k classes), <=4/<=4 in the thorough tier (6.5M), plus sampled 5-9 states.",
     design="7 C09"),
 })
+CLAIMS.update({
+  "C02": dict(
+    technique="Lean 4 proof (graded relational invariants lifted through the engine; no assumption on callbacks) + model/implementation correspondence + Spec monitor on implementation traces",
+    text="Theorems C02_phase_order (entries of one activation are ordered validators<=cond<=before<=exit<=on<=assignment<=enter<=after, also when it stops early), C02_entries (every entry is an applicable callback of the right group of this transition, with the triggering event, source and target; nested sends return None), C02_internal_no_exit_enter, C02_event_scoped, C02_view_pre/C02_view_post (callbacks up to `on` see the source, enter/after see the target), C02_initial (initial activation = assignment + enter callbacks under __initial__), for arbitrary callback behaviour in RTC mode. Correspondence with sparsely populated groups, all attachment styles and providers, self/internal/multi-event transitions, both engines; exact callback sets per group are compared with the model.",
+    design="7 C02"),
+  "C10": dict(
+    technique="Lean 4 proof (invariants over operation histories of a store model) + differential correspondence with the real library + independent Spec oracle",
+    text="Lean theorems over an executable model of the model-field store (one cell reached through getattr/setattr, states_map lookup, checked/unchecked writes, events, the repaired constructor) prove for all machines, values (no truthiness assumption), model objects and histories: the field holds the target's value after every executed transition; all readers reflect any declared value written by any route; exactly one state is active or every reader raises InvalidStateValue; invalid checked writes raise without storing; the user's model object is the one used; start_value is used iff the model holds none. The pre-fix code (D1/D2) is refuted by concrete witnesses. Tied to /repo by differential execution over 16 model shapes x 10 value kinds x all write routes plus an independent Spec on the implementation's observations; thorough adds an exhaustive 2-state small scope.",
+    design="7 C10"),
+  "C18": dict(
+    technique="Lean 4 proof (structural induction over state and transition lists) + model/implementation correspondence on the pydot object and the DOT text + independent Spec oracle",
+    text="Theorems C18_* about getGraph, a model of DotGraphMachine.get_graph: for every machine of any size the node ids are the pseudo-node i plus the state ids, without duplicates when no state is called i (a counterexample is proved for that case: known finding D18a); edges are one initial edge followed by exactly the external transitions (source->target, events, guards); internal transitions appear in their state's label and contribute no edge; double border iff final; exactly the current state's node highlighted for an instance, none for a class. The model is compared with the real pydot graph item by item and with the graph denoted by the DOT text, on generated classes and instances in every state.",
+    design="7 C18"),
+})
 NOT_APPLICABLE = {}
 
 def main():
